@@ -13,6 +13,7 @@ open CuqiVerif CuqiVerif.Proto CuqiVerif.C16
   lm M Q b x0 nuInit nu0 gradtol maxit      residual r(x) = M x + Q (x∘x) − b, J(x) = M + 2 Q diag(x)
       -> i|x|x_0;…;x_i|nu-final
   lbfgsb warnflag hasgrad                   -> success approx_grad msgcode
+  mincall min|max method|None hasgrad kw,…  -> method|hasjac|kw,…   (the call handed to scipy.optimize.minimize)
 -/
 
 def parseBool (s : String) : Option Bool :=
@@ -243,6 +244,17 @@ def stepLbfgsb (args : List String) : Option String :=
     some s!"{succ} {lbfgsbApproxGrad hg} {msg}"
   | _ => none
 
+/-- `mincall <min|max> <method|None> <0|1> <kw,kw,…|_>` -> `method|hasjac|kw,kw,…` as handed to SciPy -/
+def stepMincall (args : List String) : Option String :=
+  match args with
+  | [which, meth, hg, kws] => do
+    let hg ← parseBool hg
+    let m : Option String := if meth = "None" then none else some meth
+    let kw : List String := if kws = "_" then [] else kws.splitOn ","
+    let c ← (if which = "min" then some (minimizeCall m hg kw) else if which = "max" then some (maximizeCall m hg kw) else none)
+    some s!"{c.method.getD "None"}|{fmtBool c.hasJac}|{if c.kwargs.isEmpty then "_" else ",".intercalate c.kwargs}"
+  | _ => none
+
 def step : List String → String
   | "cgls" :: form :: args => orBad (stepCgls form args)
   | "pcgls" :: form :: args => orBad (stepPcgls form args)
@@ -250,6 +262,7 @@ def step : List String → String
   | "prox" :: args => orBad (stepProx args)
   | "lm" :: args => orBad (stepLm args)
   | "lbfgsb" :: args => orBad (stepLbfgsb args)
+  | "mincall" :: args => orBad (stepMincall args)
   | _ => "bad-op"
 
 def main : IO Unit := runDriver step
